@@ -56,7 +56,23 @@ func c18Cond(r *core.Rand, quals []string) string {
 func c18Statement(r *core.Rand, g *gen.StmtGen) (string, string) {
 	t := pick(r, c18Tables)
 	col := func() string { return pick(r, c18Cols) }
-	switch r.Intn(27) {
+	switch r.Intn(28) {
+	case 27:
+		// a table without columns (z, 0-3 rows): alone, and on either side of
+		// every kind of join with select lists, grouping and ordering over the
+		// other side's columns
+		jt := pick(r, []string{"JOIN", "LEFT JOIN", "RIGHT JOIN", "INNER JOIN"})
+		on := pick(r, []string{"t1.i = t1.i", "1 = 1", "t1.i = 1", "t1.n = t1.i", "1 = 2"})
+		return pick(r, []string{
+			fmt.Sprintf("SELECT %s FROM t1 %s z ON %s", col(), jt, on),
+			fmt.Sprintf("SELECT %s, %s FROM z %s t1 ON %s", col(), col(), jt, on),
+			fmt.Sprintf("SELECT * FROM t1 %s z ON %s ORDER BY %s", jt, on, col()),
+			fmt.Sprintf("SELECT %s, count(*) FROM z %s t1 ON %s GROUP BY %s", col(), jt, on, col()),
+			fmt.Sprintf("SELECT count(*), avg(%s) FROM t1 %s z ON %s", col(), jt, on),
+			fmt.Sprintf("SELECT t1.%s FROM t1 %s z ON %s %s z2 ON 1 = 1 WHERE t1.%s = t1.%s", col(), jt, on, strings.Replace(jt, "JOIN", "JOIN z", 1), col(), col()),
+			"SELECT * FROM z", "SELECT count(*) FROM z", "SELECT * FROM z x JOIN z y ON 1 = 1", "SELECT 1 FROM z", "SELECT * FROM z ORDER BY i",
+			"INSERT INTO z VALUES ()", "INSERT INTO z VALUES (), ()", "DELETE FROM z", "UPDATE z SET i = 1", "INSERT INTO z VALUES (1)",
+		}), "zero_column_table"
 	case 26:
 		// the catalog tables addressed like any other table; whatever such a
 		// statement does, the statements after it still have to return
@@ -137,7 +153,7 @@ func c18Statement(r *core.Rand, g *gen.StmtGen) (string, string) {
 }
 
 func checkC18(c *core.Ctx) []core.Floor {
-	c.Rule = "sessions in four states (no USE; after a failed USE; database selected; failed USE after a successful one) executing statements from type-confused families over tables with all four column types, NULLs in every nullable column and an empty table: AVG/COUNT over every type and over NULLs, ORDER BY over NULL-bearing columns, comparisons between every pair of types and with NULL-padded join sides, bare columns/literals as conditions, missing / ambiguous / duplicated columns and aliases, GROUP BY on other columns, LIMIT/OFFSET at the edge of 64 bits, database / table / column names no file system takes (255-5000 characters, path separators, dot names, NUL, empty), INSERT / UPDATE / DELETE addressed to the catalog tables sys_pages and sys_schema (followed by ordinary statements), INSERT with wrong arity / unknown / repeated columns / empty VALUES, UPDATE from a column, DDL and database statements, plus random statements from the C10 grammar over the same names. Monitor: recover() around Session.ExecQuery in a child process (a dead child names its statement); wall-clock watchdog only as inconclusive. One case in eleven runs against the REAL 100 ms flush goroutine instead: multi-row INSERT, UPDATE, DELETE, CREATE TABLE and SELECTs (valid and type-confused) on a cold or warm cache, each held open by a sleep of 2-3 timer periods at its first cache miss, its second page change or inside its log append, so that a flush request is pending while the statement goes on; a script that does not finish is run a second time on its own with a 120 s allowance, and only if it stops at the same statement again is that reported as a hang. Distinct = (session state, statement text); non-trivial = the statement parsed (it reached execution)."
+	c.Rule = "sessions in four states (no USE; after a failed USE; database selected; failed USE after a successful one) executing statements from type-confused families over tables with all four column types, NULLs in every nullable column and an empty table: AVG/COUNT over every type and over NULLs, ORDER BY over NULL-bearing columns, comparisons between every pair of types and with NULL-padded join sides, bare columns/literals as conditions, missing / ambiguous / duplicated columns and aliases, GROUP BY on other columns, LIMIT/OFFSET at the edge of 64 bits, database / table / column names no file system takes (255-5000 characters, path separators, dot names, NUL, empty), INSERT / UPDATE / DELETE addressed to the catalog tables sys_pages and sys_schema (followed by ordinary statements), a table without columns (0-3 rows) alone and on either side of every kind of join, INSERT with wrong arity / unknown / repeated columns / empty VALUES, UPDATE from a column, DDL and database statements, plus random statements from the C10 grammar over the same names. Monitor: recover() around Session.ExecQuery in a child process (a dead child names its statement); wall-clock watchdog only as inconclusive. One case in eleven runs against the REAL 100 ms flush goroutine instead: multi-row INSERT, UPDATE, DELETE, CREATE TABLE and SELECTs (valid and type-confused) on a cold or warm cache, each held open by a sleep of 2-3 timer periods at its first cache miss, its second page change or inside its log append, so that a flush request is pending while the statement goes on; a script that does not finish is run a second time on its own with a 120 s allowance, and only if it stops at the same statement again is that reported as a hang. Distinct = (session state, statement text); non-trivial = the statement parsed (it reached execution)."
 	c.Assume = []string{"any result or error value is acceptable; only panics, process death and hangs are judged"}
 	drv := mustDriver(c, false)
 	n := 600
@@ -186,6 +202,10 @@ func runC18(c *core.Ctx, drv string, idx int) {
 			ins.Rows = append(ins.Rows, row)
 		}
 		s.stmt(ins)
+	}
+	s.sql("CREATE TABLE z ()")
+	if nz := r.Intn(4); nz > 0 {
+		s.sql("INSERT INTO z VALUES " + strings.TrimSuffix(strings.Repeat("(), ", nz), ", "))
 	}
 	s.k("close")
 	s.k("session")
